@@ -33,6 +33,14 @@ def run_cases(cases, res, stratum):
         try:
             x = A.mk(fx, np, s, n, nf, code)
             obs = {'bin': x.bin(), 'bin_dot': x.bin(frac_dot=True, prefix=pb), 'hex': x.hex(prefix=ph), 'hex_default': x.hex(), 'base': x.base_repr(base)}
+            # the other ways of selecting a prefix / padding, and the numeral with a binary point
+            obs['bin_prefix_true'] = x.bin(prefix=True); obs['hex_prefix_true'] = x.hex(prefix=True); obs['hex_nopad'] = x.hex(padding=False)
+            obs['base2_dot'] = x.base_repr(2, frac_dot=True)
+            xc = A.mk(fx, np, s, n, nf, code)
+            import io, contextlib
+            with contextlib.redirect_stdout(io.StringIO()):          # the setters print a warning for unusual prefixes
+                xc.config.bin_prefix = pb; xc.config.hex_prefix = ph
+            obs['bin_cfg'] = xc.bin(); obs['hex_cfg'] = xc.hex()
             # round trips
             rt = {}
             bstr = x.bin(prefix='0b'); hstr = x.hex()
@@ -63,10 +71,13 @@ def run_cases(cases, res, stratum):
     for i, (c, obs) in enumerate(pend):
         s, n, nf = c['f']; code = c['c']; pb = c.get('pb', '0b'); ph = c.get('ph', '0x'); base = c.get('base', 2)
         want = {'bin': py_bin(n, code), 'bin_dot': pb + insert_point(py_bin(n, code), nf), 'hex': ph + py_hex(n, code), 'hex_default': '0x' + py_hex(n, code), 'base': base_repr(code, base)}
+        mag = base_repr(abs(code), 2)
+        want.update({'bin_prefix_true': '0b' + py_bin(n, code), 'hex_prefix_true': '0x' + py_hex(n, code), 'hex_nopad': '0x' + format(code % (1 << n), 'X'),
+                     'base2_dot': ('-' if code < 0 else '') + insert_point(mag, nf), 'bin_cfg': pb + py_bin(n, code), 'hex_cfg': ph + py_hex(n, code)})
         res.count(stratum, key=repr(c), nontrivial=code < 0 or code >= (1 << (n - 1)), n=5 + len(obs['rt']))
         res.sample(c)
         bad = False
-        for k in ('bin', 'bin_dot', 'hex', 'hex_default', 'base'):
+        for k in ('bin', 'bin_dot', 'hex', 'hex_default', 'base', 'bin_prefix_true', 'hex_prefix_true', 'hex_nopad', 'base2_dot', 'bin_cfg', 'hex_cfg'):
             if str(obs[k]) != want[k]:
                 res.fail(c, 'C11: %s is not the faithful image of the stored code' % k, expected=want[k], got=str(obs[k])); bad = True; break
         if bad: continue
@@ -102,6 +113,9 @@ def run_array_cases(cases, res):
             res.count('R:arrays', key=repr(c), nontrivial=True, n=8)
             if [str(t) for t in b] != [py_bin(n, t) for t in codes] or [str(t) for t in h] != ['0x' + py_hex(n, t) for t in codes]:
                 res.fail(c, 'C11: element-wise bin()/hex() of an array is not the image of each code', expected=[py_bin(n, t) for t in codes], got=b); continue
+            br = np.array(x.base_repr(10)).reshape(-1).tolist()
+            if [str(t) for t in br] != [base_repr(t, 10) for t in codes]:
+                res.fail(c, 'C11: element-wise base_repr of an array is not the numeral of each code', expected=[base_repr(t, 10) for t in codes], got=br); continue
             if shape == (4,):
                 y = fx.Fxp(x.bin(prefix='0b'), s, n, nf, raw=True); z = fx.Fxp(None, s, n, nf); z.set_val(x.hex(), raw=True)
                 w = fx.Fxp(None, s, n, nf); w.from_bin(x.bin(), raw=True)
